@@ -214,6 +214,17 @@ Theorem quiet_live_neighbour_never_dead : forall P i j s t dead ri,
 Proof. exact quiet_live_neighbour_kept. Qed.
 Print Assumptions quiet_live_neighbour_never_dead.
 
+(* the timing obligation behind "stable links": heartbeat period + latency variation <= dead interval; then no sweep,
+   whenever and however often it runs, removes a neighbour whose heartbeats keep arriving (the period and the variation are
+   observed on the implementation in the protocol-level quiet runs: oracles heartbeat_too_slow, table_changed_while_quiet) *)
+Theorem heartbeats_survive_every_sweep : forall P i j period jitter dead ri,
+  net_ok (base P) -> getr (base P) i = Some ri -> In j (nbrs ri) ->
+  period + jitter <= dead ->
+  now P <= pget (i, j) (seen P) + period + jitter ->
+  In j (nbrs_of (base (fst (pstep P (PSweep i dead)))) i).
+Proof. exact ProtoFacts.heartbeats_survive_every_sweep. Qed.
+Print Assumptions heartbeats_survive_every_sweep.
+
 (* ---- failed fetches ---- *)
 (* a failed advertisement fetch (NACK while the route to the neighbour is not registered yet, cancelled, timed out)
    changes nothing: the announced sequence number stays recorded — later Sync Interests with the same number are
